@@ -42,7 +42,7 @@ Qed.
 
 Lemma is_dirty_cycle fuel runid cyc w c f r mx seen :
   existsb (Nat.eqb f) seen = true ->
-  is_dirty (S fuel) runid cyc w c f r mx seen = Ret (VCycle, w, c, []).
+  is_dirty (S fuel) runid cyc w c f r mx seen = Ret (VDirty, w, c, []).
 Proof. intros Hs. cbn [is_dirty]. now rewrite Hs. Qed.
 
 (* a property I of worlds kept by every sub-check (of the edges in the list,
@@ -297,10 +297,11 @@ Proof.
   intros Ht Hu Ho Hin. cbn [build]. unfold frontend_deps. now rewrite Ht, Hu, Ho, Hin.
 Qed.
 
-(* a dependency met again while it is being checked is a cycle *)
+(* a dependency met again while it is being checked: the recorded rows form a
+   cycle; the walk stops there with "dirty" and changes nothing *)
 Lemma is_dirty_cycle_detected fuel runid cyc w c f r mx seen :
   existsb (Nat.eqb f) seen = true ->
-  is_dirty (S fuel) runid cyc w c f r mx seen = Ret (VCycle, w, c, []).
+  is_dirty (S fuel) runid cyc w c f r mx seen = Ret (VDirty, w, c, []).
 Proof. exact (is_dirty_cycle fuel runid cyc w c f r mx seen). Qed.
 
 (* ------------------------------------------------------------ C05: propagation *)
